@@ -230,7 +230,7 @@ func (env *Env) designator(x ast.Expr) []Loc {
 			return locs
 		}
 	}
-	// split trailing field selectors
+	// a range of slice elements, optionally with a field path: s[lo:hi].f.g
 	var fields []string
 	cur := x
 	for {
@@ -242,43 +242,30 @@ func (env *Env) designator(x ast.Expr) []Loc {
 		if !ok {
 			break
 		}
-		// stop if the prefix evaluates to a pointer or we reach an index/slice expression
+		if _, isSl := sel.X.(*ast.SliceExpr); isSl {
+			fields = append([]string{sel.Sel.Name}, fields...)
+			cur = sel.X
+			break
+		}
+		// keep peeling only while the remaining prefix still contains a slice expression
+		hasSlice := false
+		ast.Inspect(sel.X, func(n ast.Node) bool {
+			if _, ok := n.(*ast.SliceExpr); ok {
+				hasSlice = true
+			}
+			return true
+		})
+		if !hasSlice {
+			break
+		}
 		fields = append([]string{sel.Sel.Name}, fields...)
 		cur = sel.X
-		if _, isIdx := cur.(*ast.IndexExpr); isIdx {
-			break
-		}
-		if _, isSl := cur.(*ast.SliceExpr); isSl {
-			break
-		}
-		if id, isId := cur.(*ast.Ident); isId {
-			_ = id
-			break
-		}
 	}
 	var root types.Type
 	var prefix string
 	var rid, lo, hi Term
 	var leaf types.Type
-	switch b := cur.(type) {
-	case *ast.StarExpr:
-		p, ok := env.eval(b.X).(PtrV)
-		if !ok {
-			env.fail("modifies: *x needs a pointer")
-		}
-		root, rid, lo, hi = p.Root, p.Rid, p.Idx, a.idxAdd(p.Idx, a.idxLit(1))
-		prefix, leaf = pathPrefix(p.Root, p.Path)
-	case *ast.IndexExpr:
-		s, ok := env.eval(b.X).(SliceV)
-		if !ok {
-			env.fail("modifies: index of non-slice")
-		}
-		i := e.toIdx(env.typed(env.eval(b.Index), types.Typ[types.Int]))
-		el := s.Ty.Underlying().(*types.Slice).Elem()
-		root, leaf, rid = el, el, s.Rid
-		lo = e.elemIdx(s.Off, i)
-		hi = a.idxAdd(lo, a.idxLit(1))
-	case *ast.SliceExpr:
+	if b, ok := cur.(*ast.SliceExpr); ok {
 		s, ok := env.eval(b.X).(SliceV)
 		if !ok {
 			env.fail("modifies: slice of non-slice")
@@ -293,19 +280,15 @@ func (env *Env) designator(x ast.Expr) []Loc {
 			h = e.toIdx(env.typed(env.eval(b.High), types.Typ[types.Int]))
 		}
 		lo, hi = a.idxAdd(s.Off, l), a.idxAdd(s.Off, h)
-	default:
-		v := env.eval(cur)
-		p, ok := v.(PtrV)
+	} else {
+		p, ok := env.lvalue(cur)
 		if !ok {
-			env.fail("modifies: %T is not a location", v)
-		}
-		if p.Local != nil {
-			return nil
+			return nil // a local: not part of the heap frame
 		}
 		root, rid, lo, hi = p.Root, p.Rid, p.Idx, a.idxAdd(p.Idx, a.idxLit(1))
 		prefix, leaf = pathPrefix(p.Root, p.Path)
-		if len(fields) == 0 {
-			env.fail("modifies: name a field (p.f) or use *p")
+		if p.ArrBase || len(p.ArrIdx) > 0 {
+			env.fail("modifies: array element designators are not supported; name the whole array field")
 		}
 	}
 	// walk the fields
@@ -404,4 +387,72 @@ func modeAgnostic(x ast.Expr) bool {
 		return ok
 	})
 	return ok
+}
+
+// lvalue: pointer to the heap location denoted by x (false for locals).
+func (env *Env) lvalue(x ast.Expr) (PtrV, bool) {
+	e := env.e
+	switch n := x.(type) {
+	case *ast.ParenExpr:
+		return env.lvalue(n.X)
+	case *ast.StarExpr:
+		p, ok := env.eval(n.X).(PtrV)
+		if !ok {
+			env.fail("modifies: *x needs a pointer")
+		}
+		return p, p.Local == nil
+	case *ast.IndexExpr:
+		base := env.eval(n.X)
+		s, ok := base.(SliceV)
+		if !ok {
+			env.fail("modifies: index of non-slice")
+		}
+		i := e.toIdx(env.typed(env.eval(n.Index), types.Typ[types.Int]))
+		el := s.Ty.Underlying().(*types.Slice).Elem()
+		return PtrV{Ty: types.NewPointer(el), Rid: s.Rid, Idx: e.elemIdx(s.Off, i), Root: el, NonNil: true}, true
+	case *ast.SelectorExpr:
+		// X evaluates to a pointer: field of the pointee; else X must itself be a heap location
+		var base PtrV
+		okBase := false
+		func() {
+			defer func() {
+				if r := recover(); r != nil {
+					if _, isEval := r.(evalError); !isEval {
+						panic(r)
+					}
+				}
+			}()
+			if v, ok := env.eval(n.X).(PtrV); ok {
+				base, okBase = v, true
+			}
+		}()
+		if !okBase {
+			p, ok := env.lvalue(n.X)
+			if !ok {
+				return PtrV{}, false
+			}
+			base = p
+		}
+		if base.Local != nil {
+			return PtrV{}, false
+		}
+		_, lt := pathPrefix(base.Root, base.Path)
+		st, ok := lt.Underlying().(*types.Struct)
+		if !ok {
+			env.fail("modifies: .%s on non-struct %s", n.Sel.Name, lt)
+		}
+		for i := 0; i < st.NumFields(); i++ {
+			if st.Field(i).Name() == n.Sel.Name {
+				np := base
+				np.Path = append(append([]int{}, base.Path...), i)
+				np.Ty = types.NewPointer(st.Field(i).Type())
+				return np, true
+			}
+		}
+		env.fail("modifies: no field %s in %s", n.Sel.Name, lt)
+	case *ast.Ident:
+		return PtrV{}, false
+	}
+	env.fail("modifies: %T is not a location", x)
+	return PtrV{}, false
 }
